@@ -543,3 +543,219 @@ func ruleShutdownFlag(c *Ctx) {
 		"the shutdown flag is set, and tested-then-sent, under one lock",
 		"the shutdown flag `"+flag.Name()+"` is written by Shutdown (signal goroutine) and tested by EnqueueSQE (request goroutines) with no critical section around the test and the send: a request can be queued after the kernel observed Done() and is then never answered")
 }
+
+// continueToReturn copies a loop body replacing the `continue` statements that belong to this loop
+// by return statements at the same position, so that the body can be analysed as a function whose
+// exits are "next record".
+func continueToReturn(body *ast.BlockStmt) *ast.BlockStmt {
+	var rw func(s ast.Stmt) ast.Stmt
+	rwList := func(l []ast.Stmt) []ast.Stmt {
+		out := make([]ast.Stmt, len(l))
+		for i, s := range l {
+			out[i] = rw(s)
+		}
+		return out
+	}
+	rw = func(s ast.Stmt) ast.Stmt {
+		switch x := s.(type) {
+		case *ast.BranchStmt:
+			if x.Tok == token.CONTINUE && x.Label == nil {
+				return &ast.ReturnStmt{Return: x.Pos()}
+			}
+		case *ast.BlockStmt:
+			return &ast.BlockStmt{Lbrace: x.Lbrace, List: rwList(x.List), Rbrace: x.Rbrace}
+		case *ast.IfStmt:
+			n := &ast.IfStmt{If: x.If, Init: x.Init, Cond: x.Cond, Body: rw(x.Body).(*ast.BlockStmt)}
+			if x.Else != nil {
+				n.Else = rw(x.Else)
+			}
+			return n
+		case *ast.SwitchStmt:
+			return &ast.SwitchStmt{Switch: x.Switch, Init: x.Init, Tag: x.Tag, Body: rw(x.Body).(*ast.BlockStmt)}
+		case *ast.CaseClause:
+			return &ast.CaseClause{Case: x.Case, List: x.List, Colon: x.Colon, Body: rwList(x.Body)}
+		}
+		return s // nested loops keep their own continues
+	}
+	return rw(body).(*ast.BlockStmt)
+}
+
+// ruleSweepAnswers (C08/C11 progress rule): in every background coroutine each record selected by
+// the sweep is answered, in the same cycle, by exactly one command / spawned helper / hand-off;
+// a record may be left unanswered only where decoding server-written bytes failed or nothing was
+// handed off for it. In the dispatch cycle every awaited hand-off is answered by exactly one
+// task update (enqueued | retry with attempt+1 | notification finished).
+func ruleSweepAnswers(c *Ctx) {
+	m := c.coroModel()
+	if m.Err != nil {
+		c.und("model", 0, m.Err.Error())
+		return
+	}
+	info := m.Pk.TypesInfo
+	var names []string
+	for n := range m.Background {
+		names = append(names, n)
+	}
+	sort.Strings(names)
+	nLoops := 0
+	for _, bn := range names {
+		cf := m.Background[bn]
+		if cf.Lit == nil {
+			continue
+		}
+		loopN := 0
+		ast.Inspect(cf.Lit.Body, func(n ast.Node) bool {
+			rs, ok := n.(*ast.RangeStmt)
+			if !ok || !strings.HasSuffix(exprString(rs.X), ".Records") {
+				return true
+			}
+			loopN++
+			nLoops++
+			key := fmt.Sprintf("sweep-answers/%s/loop%d", bn, loopN)
+			// classify the continues of this loop
+			allowed := map[token.Pos]string{}
+			ast.Inspect(rs.Body, func(x ast.Node) bool {
+				bs, ok := x.(*ast.BranchStmt)
+				if !ok || bs.Tok != token.CONTINUE {
+					return true
+				}
+				var ifs *ast.IfStmt
+				for _, par := range enclosing(rs.Body, bs) {
+					if i, ok := par.(*ast.IfStmt); ok {
+						ifs = i
+					}
+				}
+				if ifs == nil {
+					return true
+				}
+				cond := ast.Unparen(ifs.Cond)
+				if be, ok := cond.(*ast.BinaryExpr); ok && be.Op == token.EQL && exprString(be.Y) == "nil" {
+					if tv, ok := info.Types[be.X]; ok && !isErrorType(tv.Type) {
+						allowed[bs.Pos()] = "nothing was handed off for this record"
+					}
+				}
+				if obj, nonNil, ok := nilTest(info, cond); ok && nonNil && isErrorType(obj.Type()) {
+					// a skip while the record is still being prepared (before anything was handed off or
+					// built for it); whether its reason is acceptable is judged by the background-skip rule
+					prepared := true
+					ast.Inspect(rs.Body, func(y ast.Node) bool {
+						if y != nil && y.Pos() < ifs.Pos() {
+							if isAnswer(info, y) {
+								prepared = false
+							}
+							if call, ok := y.(*ast.CallExpr); ok {
+								if fn, ok := calleeOf(info, call).(*types.Func); ok && fn.Pkg() != nil && fn.Pkg().Path() == pkgGocoro && fn.Name() == "Await" {
+									prepared = false
+								}
+							}
+						}
+						return true
+					})
+					if prepared {
+						allowed[bs.Pos()] = "skipped while preparing the record (reason judged by the background-skip rule)"
+					}
+				}
+				return true
+			})
+			// does this loop await hand-offs made earlier? then only what follows the await counts
+			body := rs.Body
+			awaitIdx := -1
+			for i, st := range rs.Body.List {
+				for _, call := range callsIn(st) {
+					if fn, ok := calleeOf(info, call).(*types.Func); ok && fn.Pkg() != nil && fn.Pkg().Path() == pkgGocoro && fn.Name() == "Await" {
+						awaitIdx = i
+					}
+				}
+			}
+			what := "each selected record is answered by exactly one command / spawned completion / hand-off"
+			anyAnswer := false
+			ast.Inspect(rs.Body, func(x ast.Node) bool {
+				if isAnswer(info, x) {
+					anyAnswer = true
+				}
+				return true
+			})
+			if !anyAnswer {
+				c.ok(key, rs.Pos(), "loop builds reads / awaits only")
+				return true
+			}
+			if awaitIdx >= 0 {
+				body = &ast.BlockStmt{Lbrace: rs.Body.List[awaitIdx].End(), List: rs.Body.List[awaitIdx+1:], Rbrace: rs.Body.Rbrace}
+				what = "each awaited hand-off is answered by exactly one task update"
+				// a loop that only awaits (no commands at all in the function after) is exempt
+				hasAnswer := false
+				ast.Inspect(body, func(x ast.Node) bool {
+					if isAnswer(info, x) {
+						hasAnswer = true
+					}
+					return true
+				})
+				if !hasAnswer {
+					c.ok(key, rs.Pos(), "loop only awaits the spawned helpers (the helpers carry the answers)")
+					return true
+				}
+			}
+			oc := &onceCheck{pk: m.Pk, body: continueToReturn(body),
+				node: func(x ast.Node) int {
+					if isAnswer(info, x) {
+						return 1
+					}
+					return 0
+				},
+				expect: func(p token.Pos, _ *ast.ReturnStmt) (bool, bool) {
+					if _, ok := allowed[p]; ok {
+						return true, false
+					}
+					return false, true
+				}}
+			c.runOnce(key, rs.Pos(), bn+": "+what, oc)
+			return true
+		})
+	}
+	c.count("sweep_loops", nLoops)
+	c.floor("sweep loops over selected records", nLoops, 6)
+}
+
+// isAnswer: a node that answers a selected record: a store command built for it (appended or
+// stored by index), a helper spawned for it, or a submission yielded for it.
+func isAnswer(info *types.Info, x ast.Node) bool {
+	as, ok := x.(*ast.AssignStmt)
+	if !ok || len(as.Rhs) != 1 || len(as.Lhs) != 1 {
+		return false
+	}
+	rhs := ast.Unparen(as.Rhs[0])
+	isCmd := func(e ast.Expr) bool {
+		tv, ok := info.Types[e]
+		return ok && (isNamed(tv.Type, pkgTAio, "Command") || strings.HasSuffix(namedName(tv.Type), "Command") && namedPkgPath(tv.Type) == pkgTAio)
+	}
+	if call, ok := rhs.(*ast.CallExpr); ok {
+		if exprString(call.Fun) == "append" && len(call.Args) == 2 && isCmd(call.Args[1]) {
+			return true
+		}
+		if fn, ok := calleeOf(info, call).(*types.Func); ok && fn.Pkg() != nil && fn.Pkg().Path() == pkgGocoro && (fn.Name() == "Spawn" || fn.Name() == "Yield") {
+			return true
+		}
+		// awaiting = append(awaiting, gocoro.Spawn(...))
+		if exprString(call.Fun) == "append" && len(call.Args) == 2 {
+			if inner, ok := ast.Unparen(call.Args[1]).(*ast.CallExpr); ok {
+				if fn, ok := calleeOf(info, inner).(*types.Func); ok && fn.Pkg() != nil && fn.Pkg().Path() == pkgGocoro && (fn.Name() == "Spawn" || fn.Name() == "Yield") {
+					return true
+				}
+			}
+		}
+	}
+	if _, ok := as.Lhs[0].(*ast.IndexExpr); ok && isCmd(rhs) && isNamed(info.Types[rhs].Type, pkgTAio, "Command") {
+		// a read command prepared for a later lookup is not an answer
+		read := false
+		ast.Inspect(rhs, func(y ast.Node) bool {
+			if kv, ok := y.(*ast.KeyValueExpr); ok && exprString(kv.Key) == "Kind" {
+				if se, ok := ast.Unparen(kv.Value).(*ast.SelectorExpr); ok && readKinds[se.Sel.Name] {
+					read = true
+				}
+			}
+			return true
+		})
+		return !read
+	}
+	return false
+}
